@@ -74,7 +74,7 @@ func (in *Interp) bigShiftAmount(v Value) (int, *Term) {
 	return -1, t
 }
 
-const bigMaxBits = 300
+const bigMaxBits = 2112
 
 func registerBig(reg func(string, intrinsic)) {
 	reg("math/big.NewInt", func(in *Interp, fn *ssa.Function, a []Value) Value {
@@ -161,11 +161,8 @@ func registerBig(reg func(string, intrinsic)) {
 			return in.bigSet(a[0], st.IMul(x, in.pow2(n)))
 		}
 		in.assumeShiftBound(sym)
-		res := st.IMul(x, in.pow2(bigMaxBits))
-		for i := bigMaxBits - 1; i >= 0; i-- {
-			res = st.Ite(st.Eq(sym, st.Const(sym.S.W, uint64(i))), st.IMul(x, in.pow2(i)), res)
-		}
-		return in.bigSet(a[0], res)
+		k := in.concretizeModel(sym, "big.Lsh amount", 300)
+		return in.bigSet(a[0], st.IMul(x, in.pow2(int(k))))
 	})
 	reg("(*math/big.Int).Rsh", func(in *Interp, fn *ssa.Function, a []Value) Value {
 		st := in.st
@@ -175,11 +172,8 @@ func registerBig(reg func(string, intrinsic)) {
 			return in.bigSet(a[0], st.IDiv(x, in.pow2(n)))
 		}
 		in.assumeShiftBound(sym)
-		res := st.IDiv(x, in.pow2(bigMaxBits))
-		for i := bigMaxBits - 1; i >= 0; i-- {
-			res = st.Ite(st.Eq(sym, st.Const(sym.S.W, uint64(i))), st.IDiv(x, in.pow2(i)), res)
-		}
-		return in.bigSet(a[0], res)
+		k := in.concretizeModel(sym, "big.Rsh amount", 300)
+		return in.bigSet(a[0], st.IDiv(x, in.pow2(int(k))))
 	})
 	reg("(*math/big.Int).BitLen", func(in *Interp, fn *ssa.Function, a []Value) Value {
 		st := in.st
@@ -202,22 +196,29 @@ func registerBig(reg func(string, intrinsic)) {
 			n = (x.Big.BitLen() + 7) / 8
 		} else {
 			in.boundBig(x)
-			// fork on byte length
-			maxB := (bigMaxBits + 7) / 8
-			alts := make([]*Term, 0, maxB+1)
-			for k := 0; k <= maxB; k++ {
-				lo := st.True
-				if k > 0 {
-					lo = st.ILe(in.pow2(8*(k-1)), x)
-				}
-				alts = append(alts, st.And(lo, st.ILt(x, in.pow2(8*k))))
-			}
-			n = in.decide(alts, true)
+			n = int(in.concretizeModel(in.unitLen(x, 8), "big.Bytes length", 300))
 		}
 		arr := in.newArrayLoc(types.Typ[types.Uint8], n)
 		for j := 0; j < n; j++ {
 			// byte j (big endian): (x div 256^(n-1-j)) mod 256
 			arr.Kids[j].V = st.Int2BV(st.IDiv(x, in.pow2(8*(n-1-j))), 8)
+		}
+		return SliceV{Arr: arr, Len: n, Cap: n}
+	})
+	reg("(*math/big.Int).Bits", func(in *Interp, fn *ssa.Function, a []Value) Value {
+		st := in.st
+		x := in.iabs(in.bigVal(a[0]))
+		var n int
+		if x.IsConst() {
+			n = (x.Big.BitLen() + 63) / 64
+		} else {
+			in.boundBig(x)
+			n = int(in.concretizeModel(in.unitLen(x, 64), "big.Bits length", 40))
+		}
+		et := fn.Signature.Results().At(0).Type().Underlying().(*types.Slice).Elem()
+		arr := in.newArrayLoc(et, n)
+		for j := 0; j < n; j++ {
+			arr.Kids[j].V = st.Int2BV(st.IDiv(x, in.pow2(64*j)), 64)
 		}
 		return SliceV{Arr: arr, Len: n, Cap: n}
 	})
@@ -270,6 +271,17 @@ func registerBig(reg func(string, intrinsic)) {
 		in.unsupported("ProbablyPrime")
 		return nil
 	})
+}
+
+// unitLen is the number of unit-bit digits of a non-negative Int x (0 for 0),
+// as a BV64 term (an ite chain over the magnitudes below 2^bigMaxBits).
+func (in *Interp) unitLen(x *Term, unit int) *Term {
+	st := in.st
+	res := st.Const(64, 0)
+	for k := 1; (k-1)*unit < bigMaxBits; k++ {
+		res = st.Ite(st.ILe(in.pow2(unit*(k-1)), x), st.Const(64, uint64(k)), res)
+	}
+	return res
 }
 
 func (in *Interp) assumeShiftBound(sym *Term) {
